@@ -65,8 +65,9 @@ def A(oid, group, module, inv, what, length=0, init=None, nxt=None, cinit=None, 
                 next=nxt, cinit=cinit, exp=exp, tier=tier, expect=expect)
 
 
-def T(oid, group, module, what, exp=10, tier="quick", expect="proved"):
-    return dict(id=oid, group=group, tool="tlaps", module=module, what=what, exp=exp, tier=tier, expect=expect)
+def T(oid, group, module, what, exp=10, tier="quick", expect="proved", planted_n=0):
+    return dict(id=oid, group=group, tool="tlaps", module=module, what=what, exp=exp, tier=tier, expect=expect,
+                planted_n=planted_n)
 
 
 OBLIGATIONS = [
@@ -91,16 +92,143 @@ OBLIGATIONS = [
       "FALSE: OffLenOkInside without the n = 0 escape", init="LemmaInit", nxt="Stutter", cinit="CInit", exp=15,
       expect="refuted"),
     A("BR.planted.step", "BinaryReader", "PBinaryReader_apa", "PlantedFalseStep",
-      "FALSE: no step moves the cursor", length=1, init="IndInit", cinit="CInit", exp=8, expect="refuted"),
+      "FALSE: no step moves the cursor", length=1, init="IndInit", cinit="CInit", exp=8, expect="refuted",
+      tier="thorough"),
     T("BR.lemmas.tlaps", "BinaryReader", "PBinaryReader_tlaps",
       "the same lemmas as closed theorems over Nat (ItemInside for ANY natural stride)", exp=5),
     T("BR.inductive.tlaps", "BinaryReader", "PBinaryReader_ind_tlaps",
       "Init => IndInv, IndInv /\\ Next => IndInv', IndInv /\\ Next => FailNoEffect", exp=5),
     T("BR.planted.tlaps", "BinaryReader", "PBinaryReader_planted", "FALSE: OffLenOkInside without the n = 0 escape",
+      exp=8, expect="refuted", planted_n=1),
+
+    # ---- 2. WOFF2 UIntBase128
+    A("B128.lemmas.apalache", "Woff2.UIntBase128", "PWoff2B128_apa", "PushExact,SeptetsExact,DecodeExact,Injective",
+      "for ALL limb pairs acc (acc[1] < 512) and septets: B128Push is acc*128+septet on limbs, and acc[1] >= 512 is "
+      "exactly 32-bit overflow; for ALL v < 2^32 the five septets are its base-128 digits (4+7+7+7+7 bits); for ALL "
+      "strings of bytes b1..b5 of which n exist: the decoder accepts iff b1 # 0x80, a terminator occurs within "
+      "min(n,5) bytes and the base-128 number is < 2^32, and then returns that number and the bytes used, else "
+      "B128Fail; two accepted strings of equal value are the same string", exp=25),
+    A("B128.roundtrip.septets", "Woff2.UIntBase128", "PWoff2B128_apa", "RT1,RT2,RT3,RT4,RT5",
+      "for ANY five septets q (4+7+7+7+7 bits) writing the limbs hi, lo: the string of the septets after the leading "
+      "zero septets, continuation bit on all but the last, decodes to <<hi, lo>> using exactly its length, whatever "
+      "bytes follow (one invariant per length 1..5)", init="InitQ", exp=40, tier="thorough"),
+    A("B128.roundtrip.encoder", "Woff2.UIntBase128", "PWoff2B128_apa", "RTCLen,RTC1,RTC2,RTC3,RTC4,RTC5",
+      "Decode(Encode(v)) = v for ALL v in 0 .. 2^32-1 with the library's septets B128Septets(v) and EncB128's rule "
+      "(EncCases): 1..5 bytes, no leading 0x80, all consumed, refused when truncated, minimal length (one invariant "
+      "per length; InitEnc = Init + the septets + SeptetsExact as a redundant hint)", init="InitEnc", exp=120),
+    A("B128.planted", "Woff2.UIntBase128", "PWoff2B128_apa", "PlantedFalse",
+      "FALSE: an accepted string has at most 4 bytes", exp=10, expect="refuted"),
+
+    # ---- 3. WOFF2 255UInt16
+    A("U255.lemmas.apalache", "Woff2.255UInt16", "PWoff2U255_apa", "RoundTrip,DecodeExact,FormCount",
+      "for ALL v in 0..65535 every allowed form decodes to v and is consumed entirely whatever follows, is refused "
+      "when truncated; for ALL strings a success is a value 0..65535 whose bytes are one of its allowed forms; the "
+      "exact set of forms per value range", exp=12),
+    A("U255.planted", "Woff2.255UInt16", "PWoff2U255_apa", "PlantedFalse", "FALSE: the decoder never returns 65535",
       exp=8, expect="refuted"),
+    T("U255.roundtrip.tlaps", "Woff2.255UInt16", "PWoff2U255_tlaps", "RoundTrip as a closed theorem", exp=5),
+
+    # ---- 4. Sfnt checksum limbs
+    A("Sfnt.lemmas.apalache", "SfntWrite.checksum", "PSfntSum_apa", "AddSubExact,AdjustIff,WordExact",
+      "for ALL limb pairs: Add32/Sub32 are +/- modulo 2^32 and return limb pairs, Less32 is < on values, the value "
+      "determines the pair; adj = Sub32(Magic, s) is the ONE u32 with Add32(s, adj) = Magic = 0xB1B0AFBA and its "
+      "value is (0xB1B0AFBA - Val(s)) mod 2^32; Sub32/Add32 are mutually inverse; the big-endian word of 4 bytes",
+      nxt="Stutter", exp=10),
+    A("Sfnt.sum32.init", "SfntWrite.checksum", "PSfntSum_apa", "SumInv", "Sum32(<<>>) = <<0,0>> satisfies SumInv",
+      nxt="Stutter", exp=6),
+    A("Sfnt.sum32.step", "SfntWrite.checksum", "PSfntSum_apa", "SumInv",
+      "Val(Sum32(s)) = (sum of Val(s[k])) mod 2^32 for sequences of ANY length: the invariant is inductive under "
+      "adding any limb pair in front (ghost variable: the unbounded mathematical sum)", length=1, init="SumInit",
+      nxt="SumNext", exp=8),
+    A("Sfnt.planted", "SfntWrite.checksum", "PSfntSum_apa", "PlantedFalse", "FALSE: Add32 never wraps",
+      nxt="Stutter", exp=8, expect="refuted"),
+    A("Sfnt.planted.step", "SfntWrite.checksum", "PSfntSum_apa", "PlantedFalseStep",
+      "FALSE: the running sum never decreases", length=1, init="SumInit", nxt="SumNext", exp=8, expect="refuted",
+      tier="thorough"),
+    T("Sfnt.less.adjust.tlaps", "SfntWrite.checksum", "PSfntSum_tlaps",
+      "Less32 is < on values; Add32(s, Sub32(Magic, s)) = Magic (Add32/Sub32 exactness: not discharged by tlapm)",
+      exp=5),
+
+    # ---- 5. cmap idDelta
+    A("Cmap.lemmas.apalache", "Cmap.idDelta", "PCmapDelta_apa", "DeltaForms,DeltaInverse,DeltaConsecutive,ToI16Any",
+      "for ALL c in 0..65535 and ALL d in -32768..32767: (c + d) mod 65536 is a u16 and equals the masked i32 sum of "
+      "the code, the u16 wrapping add of the stored field and the case formula; ToI16(g - c) is the ONLY signed delta "
+      "mapping c to g; consecutive codes get consecutive glyphs mod 65536; ToI16 on ANY integer", exp=8),
+    A("Cmap.planted", "Cmap.idDelta", "PCmapDelta_apa", "PlantedFalse", "FALSE: no wrap is ever needed", exp=8,
+      expect="refuted"),
+    T("Cmap.lemmas.tlaps", "Cmap.idDelta", "PCmapDelta_tlaps", "the same as closed theorems", exp=5),
+
+    # ---- 6. CFF operands, Type 2 bias
+    A("Cff.roundtrip.apalache", "CffCodec.operands", "PCffInt_apa",
+      "IntSizeRange,RoundTrip1,RoundTrip2,RoundTrip3,Form3,DecodeSizes,Decode1,Decode2,Decode3,Decode5",
+      "for ALL v in the 1-, 2- and 3-byte ranges Tok(EncIntOp(v)) = v with the size of the range, whatever follows, "
+      "refused when truncated; the 28 form for every v in -32768..32767; for ALL byte strings an integer token has a "
+      "32-bit value, fits the bytes present, and re-encodes byte for byte (1/2-byte tokens are the shortest form)",
+      exp=25),
+    A("Cff.digits", "CffCodec.operands", "PCffInt_apa", "DigitsTie",
+      "every 32-bit v has signed base-256 digits (repeated division of the remainder) - justifies InitD", init="InitD0",
+      exp=8),
+    A("Cff.roundtrip5.apalache", "CffCodec.operands", "PCffInt_apa", "BE4sDigits,RoundTrip5,Form5",
+      "for ALL 32-bit v: BE4s(v) writes the digits; the 29 form decodes to v (RI32(I32(v)) = v), also as a chosen "
+      "form for small v", init="InitD", exp=90, tier="thorough"),
+    A("Cff.planted", "CffCodec.operands", "PCffInt_apa", "PlantedFalse", "FALSE: the 2-byte forms reach 1132", exp=8,
+      expect="refuted"),
+    A("Bias.lemmas.apalache", "Type2.bias", "PType2Bias_apa", "Reach,IndexRange,BiasShape,Tight",
+      "for ALL counts <= 65536 every subroutine is called by exactly one 16-bit operand, below 1240 by a 1-/2-byte "
+      "operand, below 33900 by an operand >= -1131; for ALL counts and 16-bit operands the index lies in "
+      "-32661..65535 and is accepted iff it names a subroutine; the thresholds are tight", exp=6),
+    A("Bias.planted", "Type2.bias", "PType2Bias_apa", "PlantedFalse",
+      "FALSE: 16-bit operands reach every subroutine of a 65537-entry INDEX", exp=6, expect="refuted"),
+    T("Bias.lemmas.tlaps", "Type2.bias", "PType2Bias_tlaps", "Reach, IndexRange, BiasShape as closed theorems", exp=5),
+
+    # ---- 7. Fix limbs
+    A("Fix.steps.apalache", "Fix.limbs", "PFixLimb_apa", "AddSubStep,MulStepBound,AddSub3,Mul3ColsExact",
+      "for ALL limbs (base 2^14): one position of AddAt/SubAt is exact with carry/borrow in {0,1}; one column of MulAt "
+      "with <= 7 products and carry <= 7B stays < 2^31, is exact, carry out <= 7B again; 3-limb sum/difference exact; "
+      "the 2x2 product on GIVEN partial products equals p11 + B(p12+p21) + B^2 p22", exp=10),
+    A("Fix.product.apalache", "Fix.limbs", "PFixLimb_apa", "ProductPolynomial,Mul2x2Exact",
+      "NONLINEAR: limb products are <= (B-1)^2 and MulAt on two 2-limb magnitudes is the product of their values", exp=10),
+    A("Fix.planted", "Fix.limbs", "PFixLimb_apa", "PlantedFalse", "FALSE: nine products per column fit 2^31", exp=6,
+      expect="refuted"),
+    T("Fix.product.tlaps", "Fix.limbs", "PFixLimb_tlaps", "ProductPolynomial, CarryBound as closed theorems", exp=5),
+
+    # ---- 8. Normalize
+    A("Norm.range.endpoints", "Normalize.default", "PNormalize_apa", "Range,Endpoints",
+      "NONLINEAR (division by a variable): for ALL 32-bit axes min <= def <= max and ALL 32-bit values at FB = 16 the "
+      "result is in [-1, 1] already before the clamp; def -> 0, <= min -> -1, >= max -> +1, sign follows the side, "
+      "strictly inside stays strictly inside", exp=12),
+    A("Norm.monotone", "Normalize.default", "PNormalize_apa", "Monotone",
+      "NONLINEAR: v <= w => RefDefault(v) <= RefDefault(w) for ALL 32-bit axes and values", exp=30),
+    A("Norm.planted", "Normalize.default", "PNormalize_apa", "PlantedFalse", "FALSE: strictly monotone", exp=10,
+      expect="refuted"),
+
+    T("planted.tlaps", "all", "PPlanted_tlaps", "FIVE false theorems (255UInt16, idDelta, Less32, bias, limb bound)",
+      exp=10, expect="refuted", planted_n=5),
 ]
 
-DROPPED = []
+DROPPED = [
+    dict(what="UIntBase128 round trip as ONE invariant (PWoff2B128_apa!RoundTrip, RoundTripQ, RoundTripL, RoundTripC)",
+         why="Apalache/Z3 did not answer within 300 s (RoundTrip: 900 s) - nested \\div/% on if-then-else byte "
+             "expressions; replaced by one invariant per encoding length (RT1..RT5, RTC1..RTC5 + RTCLen), each 1-15 s; "
+             "their conjunction is the round-trip statement"),
+    dict(what="CFF operands RoundTrip / RoundTripForms / DecodeExact as single invariants",
+         why="time-outs of 200-250 s; replaced by one invariant per encoding size; the 5-byte form needed the signed "
+             "base-256 digits of v as auxiliary variables (InitD, justified by obligation Cff.digits)"),
+    dict(what="TLAPS versions of the UIntBase128 and CFF-operand lemmas, of Add32/Sub32 exactness and of the "
+              "Normalize lemmas",
+         why="tlapm's untyped SMT encoding (Z3 4.8.9, 5 s per obligation) fails on lemmas that combine several \\div/% "
+             "terms ('(al + bl) \\div 65536 \\in {0, 1}' already fails); after ~30 min only the linear lemmas were kept in "
+             "TLAPS (BinaryReader incl. the inductive step, 255UInt16, idDelta, Less32/adjustment, bias, the limb "
+             "product polynomial); everything else is discharged by Apalache alone"),
+    dict(what="Fix.tla beyond the limb steps: MagMul for more than 2 x 2 limbs, Trim, MagCmp, sign handling of ZAdd/ZMul, "
+              "ZFloorShr14, the rationals Q*", why="not attempted (recursive over sequences of unbounded length; the "
+              "step lemmas + carry bounds are the inductive core)"),
+    dict(what="Normalize.tla beyond default normalisation at FB = 16: the avar step (RefAvar, FixMulFB), ToOut, other FB, "
+              "and Part 1 (accuracy of the procedure against the exact rational)", why="not attempted"),
+    dict(what="Type2!Op_call executed in the mirror check", why="needs a whole interpreter state; the index expression "
+         "is quoted in PType2Bias and only Bias / IntSize are mirrored"),
+    dict(what="re-checking of TLAPS proofs by Isabelle (tlapm -C)", why="not used: SMT results are trusted"),
+]
 
 
 def _cmd(ctx, ob):
@@ -164,8 +292,9 @@ def _run_ob(ctx, ob):
             res["result"] = "proved"
             res["tlapm_obligations"] = int(m.group(1))
         elif f:
-            res["result"] = "refuted"        # for tlapm: "not proved" - only ever expected of a planted statement
+            # for tlapm "refuted" means "not proved" - only ever expected of planted statements, ALL of which must fail
             res["tlapm_failed"] = "%s/%s" % (f.group(1), f.group(2))
+            res["result"] = "refuted" if int(f.group(1)) == ob.get("planted_n", 0) else "partly-proved"
         else:
             res["result"] = "error"
             res["tail"] = text[-1500:]
@@ -238,11 +367,161 @@ def sample_binaryreader(rnd, count):
     return out
 
 
+def _pick(rnd, boundaries, lo, hi, p=0.6):
+    if rnd.random() < p:
+        return min(hi, max(lo, rnd.choice(boundaries) + rnd.choice([-1, 0, 0, 1])))
+    return rnd.randint(lo, hi)
+
+
+def _pad(rnd):
+    return [rnd.randint(0, 255) for _ in range(rnd.choice([0, 0, 1, 3]))]
+
+
+def sample_woff2b128(rnd, count):
+    out = []
+    vb = [0, 127, 128, 16383, 16384, 2097151, 2097152, 268435455, 268435456, 2 ** 31, 2 ** 32 - 1, 65535, 65536,
+          2 ** 25 - 1, 2 ** 25]
+    for _ in range(count):
+        v = _pick(rnd, vb, 0, 2 ** 32 - 1)
+        b = []
+        for k in range(7):
+            c = rnd.random()
+            if c < 0.5:
+                b.append(128 + rnd.choice([0, 0, 1, 15, 16, 127, rnd.randint(0, 127)]))
+            elif c < 0.8:
+                b.append(rnd.choice([0, 1, 127, rnd.randint(0, 127)]))
+            else:
+                b.append(rnd.randint(0, 255))
+        out.append(dict(plant=0, hi=v >> 16, lo=v & 0xFFFF, s=rnd.choice([0, 1, 127, rnd.randint(0, 127)]),
+                        x=_pick(rnd, vb, 0, 2 ** 31 - 1), n=rnd.choice([0, 1, 2, 3, 4, 5, 5, 6, 7]), b=b, pad=_pad(rnd)))
+    out.append(dict(plant=1, hi=0, lo=128, s=0, x=0, n=2, b=[0x81, 0x00, 0, 0, 0, 0, 0], pad=[]))
+    return out
+
+
+def sample_woff2u255(rnd, count):
+    out = []
+    vb = [0, 252, 253, 254, 255, 505, 506, 508, 509, 761, 762, 65535, 256]
+    for _ in range(count):
+        out.append(dict(plant=0, v=_pick(rnd, vb, 0, 65535), n=rnd.choice([0, 1, 2, 3, 3, 4, 5]),
+                        c=rnd.choice([252, 253, 254, 255, 0, rnd.randint(0, 255)]), x=rnd.randint(0, 255),
+                        y=rnd.randint(0, 255), pad=_pad(rnd)))
+    out.append(dict(plant=1, v=300, n=2, c=255, x=47, y=0, pad=[]))
+    return out
+
+
+def _u32pair(rnd):
+    lb = [0, 1, 65535, 32768, 45488, 44986]
+    return [_pick(rnd, lb, 0, 65535), _pick(rnd, lb, 0, 65535)]
+
+
+def sample_sfntsum(rnd, count):
+    out = []
+    for _ in range(count):
+        out.append(dict(plant=0, a=_u32pair(rnd), b=_u32pair(rnd), c=_u32pair(rnd),
+                        w=[rnd.choice([0, 255, rnd.randint(0, 255)]) for _ in range(4)]))
+    out.append(dict(plant=1, a=[1, 2], b=[3, 4], c=[5, 6], w=[1, 2, 3, 4]))
+    return out
+
+
+def sample_cmapdelta(rnd, count):
+    out = []
+    for _ in range(count):
+        out.append(dict(plant=0, c=_pick(rnd, [0, 32767, 32768, 65535], 0, 65535),
+                        d=_pick(rnd, [-32768, -1, 0, 1, 32767], -32768, 32767),
+                        g=_pick(rnd, [0, 32767, 32768, 65535], 0, 65535),
+                        x=_pick(rnd, [-65536, -32769, -32768, -1, 0, 32767, 32768, 65535, 65536, 2 ** 30, -2 ** 30],
+                                -2 ** 30, 2 ** 30)))
+    out.append(dict(plant=1, c=10, d=5, g=0, x=0))
+    return out
+
+
+def sample_cffint(rnd, count):
+    out = []
+    vb = [0, 107, 108, -107, -108, 1131, 1132, -1131, -1132, 32767, 32768, -32768, -32769, 2 ** 31 - 1, -2 ** 31,
+          65535, 65536, 16777215, 16777216, -16777216, -16777217]
+    for _ in range(count):
+        b0 = rnd.choice([28, 29, 30, 31, 32, 139, 246, 247, 250, 251, 254, 255, 12, 0, 24, 25, rnd.randint(0, 255),
+                         rnd.randint(0, 255)])
+        b = [b0] + [rnd.choice([0, 127, 128, 255, rnd.randint(0, 255)]) for _ in range(5)]
+        out.append(dict(plant=0, v=_pick(rnd, vb, -2 ** 31, 2 ** 31 - 1), u=_pick(rnd, [0, 255, 256, 65535], 0, 65535),
+                        h=_pick(rnd, [-32768, -1, 0, 32767], -32768, 32767), left=rnd.choice([0, 1, 2, 3, 4, 5, 6, 6]),
+                        b=b, pad=_pad(rnd)))
+    out.append(dict(plant=1, v=0, u=0, h=0, left=3, b=[28, 1, 2, 3, 4, 5], pad=[]))
+    return out
+
+
+def sample_type2bias(rnd, count):
+    out = []
+    for _ in range(count):
+        out.append(dict(plant=0, cnt=_pick(rnd, [0, 1, 1239, 1240, 33899, 33900, 65535, 65536], 0, 70000),
+                        n=_pick(rnd, [-32768, -1131, -107, 0, 107, 1131, 1132, 32767], -40000, 40000)))
+    out.append(dict(plant=1, cnt=1239, n=0))
+    return out
+
+
+def sample_fixlimb(rnd, count):
+    out = []
+    lb = [0, 1, 16383, 8192]
+
+    def limbs():
+        return [_pick(rnd, lb, 0, 16383) for _ in range(3)]
+    for _ in range(count):
+        out.append(dict(plant=0, a=limbs(), b=limbs(), c=rnd.choice([0, 1]),
+                        col=_pick(rnd, [0, 268402689, 7 * 268402689], 0, 7 * 268402689),
+                        cm=_pick(rnd, [0, 16383, 16384, 114688], 0, 114688),
+                        ma=_pick(rnd, lb, 0, 16383), mb=_pick(rnd, lb, 0, 16383)))
+    out.append(dict(plant=1, a=[5, 7, 0], b=[3, 2, 0], c=0, col=0, cm=0, ma=0, mb=0))
+    return out
+
+
+def sample_normalize(rnd, count):
+    out = []
+    for _ in range(count):
+        fb = rnd.choice([0, 1, 2, 3, 4, 5, 6, 7, 8, 10, 12, 14, 16, 16, 16])
+        m = ((2 ** 31 - 1) >> fb) // 2 - 1
+        h = m // 2
+        ax = sorted(_pick(rnd, [-h, -1, 0, 1, h], -h, h) for _ in range(3))
+        if rnd.random() < 0.15:
+            ax[1] = ax[rnd.choice([0, 2])]                   # default at an end of the range
+        if rnd.random() < 0.05:
+            rnd.shuffle(ax)                                  # an invalid axis: the operators are still total
+        out.append(dict(plant=0, fb=fb, mn=ax[0], df=ax[1], mx=ax[2], v=_pick(rnd, ax + [-h, h], -h, h),
+                        a=_pick(rnd, [-2 ** 30, -1, 0, 1, 2 ** 30], -2 ** 30, 2 ** 30),
+                        b=rnd.choice([1, -1, 2, -3, 65536, rnd.randint(1, 2 ** 30), -rnd.randint(1, 2 ** 30)]),
+                        sa=_pick(rnd, [-m, -1, 0, 1, m], -m, m),
+                        sb=rnd.choice([0, 1, -1, rnd.randint(-2 ** 20, 2 ** 20)])))
+    out.append(dict(plant=1, fb=8, mn=0, df=0, mx=100, v=50, a=1, b=1, sa=1, sb=1))
+    return out
+
+
 MIRRORS = [
     dict(id="mirror.BinaryReader", group="BinaryReader", module="Mirror_BinaryReader", sampler=sample_binaryreader,
          quick=3000, thorough=20000, library="BinaryReader.tla",
          operators="IsHuge Mul Add Min2 OffLenResult SubScope DoOffset DoOffsetLength DoCtxtScope DoReadScope "
                    "DoReadArrayGen DoReadArrayUpto ItemPos Obj/Array + Apply as a step of PBinaryReader_apa!Next"),
+    dict(id="mirror.Woff2B128", group="Woff2.UIntBase128", module="Mirror_Woff2B128", sampler=sample_woff2b128,
+         quick=3000, thorough=20000, library="Woff2.tla",
+         operators="U32Of NatOf B128Push B128Fail B128Septets DecB128At StripZeros EncB128 B128RoundTrip"),
+    dict(id="mirror.Woff2U255", group="Woff2.255UInt16", module="Mirror_Woff2U255", sampler=sample_woff2u255,
+         quick=3000, thorough=20000, library="Woff2.tla",
+         operators="U16B U16At U255Fail Dec255At Forms255 Enc255Form U255RoundTrip"),
+    dict(id="mirror.SfntSum", group="SfntWrite.checksum", module="Mirror_SfntSum", sampler=sample_sfntsum,
+         quick=3000, thorough=20000, library="SfntWrite.tla",
+         operators="L32 Add32 Sub32 Less32 Magic Sum32 WordSum AdjustmentOK"),
+    dict(id="mirror.CmapDelta", group="Cmap.idDelta", module="Mirror_CmapDelta", sampler=sample_cmapdelta,
+         quick=3000, thorough=20000, library="Cmap.tla, CmapSubset.tla",
+         operators="Cmap!Mod16 Cmap!Seg4Glyph Cmap!Map4 CmapSubset!ToI16"),
+    dict(id="mirror.CffInt", group="CffCodec.operands", module="Mirror_CffInt", sampler=sample_cffint,
+         quick=3000, thorough=20000, library="CffCodec.tla (TableCodec.tla, BinaryWriter.tla)",
+         operators="BE2 BE4s I16 I32 RI16 RI32 IntSize EncIntOp EncIntForm Dev_IntEncoding Tok"),
+    dict(id="mirror.Type2Bias", group="Type2.bias", module="Mirror_Type2Bias", sampler=sample_type2bias,
+         quick=3000, thorough=20000, library="Type2.tla, CffCodec.tla", operators="Type2!Bias CffCodec!IntSize"),
+    dict(id="mirror.FixLimb", group="Fix.limbs", module="Mirror_FixLimb", sampler=sample_fixlimb,
+         quick=3000, thorough=20000, library="Fix.tla",
+         operators="B AddAt SubAt MulAt MagOfNat MagAdd MagSub MagMul Trim MagCmp"),
+    dict(id="mirror.Normalize", group="Normalize.default", module="Mirror_Normalize", sampler=sample_normalize,
+         quick=3000, thorough=20000, library="Normalize.tla, Fix.tla",
+         operators="TruncDiv Pow2 Clamp FixOne FixDivFB ValidAxis RefDefault"),
 ]
 
 
